@@ -17,6 +17,7 @@ IntSeq = z3.SeqSort(z3.IntSort())
 #   'int' 'bool' 'bytes'            scalar / byte string (Seq Int, elements 0..255)
 #   ('seq', k)                      immutable sequence of elements of kind k
 #   ('opq', tag)                    opaque object identity (an Int id)
+#   ('rec', model name)             reference to a record of the symbolic map (MapOf) of that model (the key)
 #   ('tup', (k1,..,kn))             tuple sort (only as element of a seq)
 # ---------------------------------------------------------------------------
 
@@ -33,7 +34,7 @@ def sort_of(kind):
     if isinstance(kind, tuple):
         if kind[0] == 'seq':
             return z3.SeqSort(sort_of(kind[1]))
-        if kind[0] == 'opq':
+        if kind[0] in ('opq', 'rec'):
             return z3.IntSort()
         if kind[0] == 'tup':
             if kind not in _tuple_sorts:
@@ -56,6 +57,8 @@ def _kname(k):
         return 'S' + _kname(k[1])
     if k[0] == 'opq':
         return 'O' + str(k[1])
+    if k[0] == 'rec':
+        return 'R' + str(k[1]).replace(':', '_').replace('.', '_')
     if k[0] == 'tup':
         return 'T' + ''.join(_kname(x) for x in k[1]) + 'E'
     return str(k)
